@@ -396,6 +396,18 @@ func (e *env) directed(rng *rand.Rand) {
 			}
 		}
 	}
+	// manifests whose references are no digests at all (no colon, empty): refused like any other incomplete manifest -
+	// on every store kind the reference is looked up somewhere, and that lookup must not trip over the string
+	for k, dg := range []string{"sha256-" + strings.Repeat("ab", 32), "", "latest", strings.Repeat("c", 64)} {
+		body := fmt.Sprintf(`{"schemaVersion":2,"mediaType":%q,"config":{"mediaType":%q,"digest":%q,"size":2},"layers":[]}`, vh.MTImage, vh.MTConfig, dg)
+		mt := vh.MTImage
+		if k%2 == 1 {
+			body = fmt.Sprintf(`{"schemaVersion":2,"mediaType":%q,"manifests":[{"mediaType":%q,"digest":%q,"size":2}]}`, vh.MTIndex, vh.MTImage, dg)
+			mt = vh.MTIndex
+		}
+		cases = append(cases, dc{"reference-is-no-digest", vh.Req{Method: "PUT", URL: fmt.Sprintf("/v2/r/manifests/nodigest%d", k), H: map[string]string{"Content-Type": mt}, Body: []byte(body)},
+			[]string{"MANIFEST_INVALID", "MANIFEST_BLOB_UNKNOWN", "DIGEST_INVALID", "BLOB_UNKNOWN"}, any, ""})
+	}
 	if presentBlob != "" {
 		// an unsatisfiable byte range on existing content is a client mistake too
 		cases = append(cases, dc{"unsatisfiable-range", vh.Req{Method: "GET", URL: "/v2/r/blobs/" + presentBlob, H: map[string]string{"Range": "bytes=99999999-"}}, []string{"SIZE_INVALID", "BLOB_UNKNOWN", "UNSUPPORTED"}, any, ""})
